@@ -287,6 +287,13 @@ def run_unit(ctx, p):
                 return
             for x, o in zip([np.asarray(d_, dtype=np.float64) for d_ in q0.data], q.data):
                 judge_unit(ctx, api, x, o)
+            # ... and so does the constructor given that object (the copy form: UnitQuaternion(q)), alone or in a list
+            for qc in ([sm.UnitQuaternion(q0)] + ([sm.UnitQuaternion([q0, q0])] if len(q0) == 1 else [])):
+                if type(qc) is not sm.UnitQuaternion or len(qc) % len(q0):
+                    ctx.bad('unit', dict(api='UnitQuaternion.ctor', kind='wrong_type_or_length', form='instance'), 'UnitQuaternion(q) returned %s of length %d' % (type(qc).__name__, len(qc)))
+                    return
+                for j_, o in enumerate(qc.data):
+                    judge_unit(ctx, 'UnitQuaternion.ctor(instance)', np.asarray(q0.data[j_ % len(q0)], dtype=np.float64), o)
             ctx.cell('unit_ctor', 'unit() after norm=False', form)
             return
         elif api == 'Quaternion.unit.multi':
